@@ -894,6 +894,30 @@ func (h *hist) compareReopened(pre, post *snap) {
 			now[m.Hash] = true
 		}
 	}
+	// KNOWN-FINDING class (narrow): re-injection during a reorg does not enforce the Datacap, so
+	// the pool can persist more than the cap until the next insertion; Init enforces the cap and
+	// evicts. Attributed only if the store was over the Datacap at Close (insertions never leave
+	// it there), is within it after reopening, and every missing tx is the tail of its account.
+	if pre.Stored > datacap && post.Stored <= datacap {
+		tails := true
+		gone := 0
+		for a, l := range pre.Index {
+			keep := len(post.Index[a])
+			for i, m := range l {
+				if !now[m.Hash] {
+					gone++
+					if i < keep {
+						tails = false
+					}
+				}
+			}
+		}
+		if gone > 0 && tails && len(post.LookupTx) == len(pre.LookupTx)-gone {
+			h.viol("reopen:over-datacap-after-reinjection-evicted", fmt.Sprintf("stored %d > Datacap %d at Close (re-injection does not enforce the cap); Init evicts %d tx(s) on reopen", pre.Stored, datacap, gone))
+			h.dead = true
+			return
+		}
+	}
 	missing, attributed, reinj := 0, 0, false
 	for _, l := range pre.Index {
 		cut := false
@@ -1150,6 +1174,11 @@ func reopenAndCheck(r *vrt.Run, dir, ackPath string, lines int, exact bool) reop
 	if exact {
 		// known-finding attribution, see compareReopened: missing txs that are (or follow, within
 		// their account) a gapped-buffer promotion with a tip below the gas tip
+		var closeStored uint64
+		for hash := range v.acked {
+			closeStored += v.info[hash].slot
+		}
+		overCapAtClose := closeStored > datacap && s.Stored <= datacap
 		cutAt := map[int]uint64{}
 		viaReinj := false
 		for hash := range v.acked {
@@ -1169,6 +1198,10 @@ func reopenAndCheck(r *vrt.Run, dir, ackPath string, lines int, exact bool) reop
 						fp = "below-gastip-tx-from-reinjection-dropped"
 					}
 					add(fp, "acknowledged tx %x (tip %d, gas tip %d; entered the pool without a tip check, or sits behind such a tx) is dropped by Init", hash[:4], ai.tip, v.head.GasTip)
+					continue
+				}
+				if overCapAtClose {
+					add("over-datacap-after-reinjection-evicted", "acknowledged tx %x evicted by Init: the store held %d > Datacap %d bytes at Close", hash[:4], closeStored, datacap)
 					continue
 				}
 				add("acked-missing", "acknowledged tx %x is not pooled after a clean Close and reopen", hash[:4])
